@@ -31,33 +31,51 @@ from vp import registry as R
 PROPERTY = "C14"
 LEVEL = "exploration"
 KNOWN_TAG = "astuple-recursion-nested-unevaluated-argument"
+# witness predicate (on the input): a private printable implementation class (name starts
+# with "_", no evaluate()) has a direct argument that is a sum (prints without parentheses)
+SUM_TAG = "implementation-class-with-sum-argument"
 RULE = (
     "classes = every sympy.Basic subclass defined in the ampform package"
     " (pkgutil.walk_packages; deprecated module and symplot skipped); per @unevaluated class:"
     " field sorts from name/annotation (four-momentum array, 3-vector, event count, angular"
     " momentum, scalar, non-SymPy attribute), alphabet per sort {plain symbol, symbol with"
     " assumptions, positive rational, compound expression, nested @unevaluated instances"
-    " (quick: 3 representatives, 1 level; thorough: every class of the sort, 2 levels)}, every"
-    " phase-space callable / None / name string for non-SymPy attributes; full product of the"
-    " alphabets if <= 60 (500) shapes, else base + all one-field variations + diagonals +"
-    " two-field nested variations + attribute x nested; helper classes (PoolSum, Array*,"
-    " ComplexSqrt, integrals/sums) from recipes; per shape every map symbol -> {same-assumption"
-    " symbol, positive rational, compound} for 1 symbol and for 2 symbols (quick: neighbouring"
-    " pairs x 3 target combinations + swap; thorough: all pairs x all combinations) via subs"
-    " and xreplace; all pairs of instances of a class (law 2) and of classes with the same"
-    " signature; non-trivial = the map changes the expression (law 1) / the pair is built from"
-    " two separately constructed objects (law 2); distinct = (class, shape, map, method)"
+    " (quick: 3 representatives of the sort, 1 level; thorough: every class of the sort, 2"
+    " levels for the representatives)}, angular momentum {1, 0, 2, symbol, integer symbol,"
+    " symbol+1}, non-SymPy attributes {every phase-space callable found in the package, None,"
+    " name strings}; full product of the alphabets if <= 60 (thorough 500) shapes, else base +"
+    " all one-field variations + diagonals + two-field variations over nested values +"
+    " attribute x nested; helper classes (PoolSum, Array*, ComplexSqrt, integral/sum) from"
+    " recipes, unknown ones from generic attempts (a class without recipe is a cap); per shape"
+    " every single map symbol -> {same-assumption symbol, positive rational, compound"
+    " expression containing the symbol}; pair maps: base shape = neighbouring pairs x 3 target"
+    " combinations + swap (thorough: all pairs of the first 8 symbols x 9 + swap), other"
+    " shapes = first pair (symbol inside a nested argument, neighbour) (thorough: first six x"
+    " 3 + swap); shapes with a symbolic angular momentum: maps of that symbol only; each map"
+    " via subs and via xreplace; law 2: all pairs of instances of a class + twin objects +"
+    " classes with the same field signature; non-trivial = the map changes the expression /"
+    " the compared objects were built separately; distinct = (class, shape, map, method)"
 )
 ASSUMPTIONS = [
     "numeric agreement is shown on a deterministic lattice only (2 exact rational points, or"
-    " 3 events for array classes); structural equality needs no lattice",
+    " 3 events for array classes; s-like symbols above threshold, masses small); structural"
+    " equality needs no lattice",
     "symbols with assumptions are only replaced by expressions that satisfy the same"
     " assumptions; bound variables (PoolSum indices, summation/integration variables) are"
     " never replaced (C18 covers them)",
-    "for classes whose folded form is not printable by design, law 4 compares code generated"
-    " from the unfolded form with cse off/on and with an evaluation that does not use the"
-    " NumPy printer (evalf) or, for array classes, with event-by-event evaluation",
+    "a symbolic angular momentum is combined with symbol / number / compound arguments only and"
+    " only that symbol is substituted: the symbolic-L Blatt-Weisskopf form |h_L(1)|^2 /"
+    " (z |h_L(sqrt z)|^2) equals the polynomial form used for integer L for z >= 0 only",
+    "for classes whose folded form is not printable by design (or contains an argument that"
+    " must be unfolded first), law 4 compares code generated from the unfolded form with cse"
+    " off/on and with an evaluation that does not use the NumPy printer (evalf) or, for array"
+    " classes, with event-by-event evaluation; cse=True is skipped for expressions with bound"
+    " variables (sympy's cse extracts sub-expressions of Integral/Sum that contain them)",
+    "NumPy code is evaluated on complex-valued input; a disagreement that disappears on"
+    " real-valued input (signed zero on a branch cut) is recorded as an outcome, not a violation",
     "points at which both sides are NaN are skipped and never counted as agreement",
+    "a phsp_factor attribute of None is constructed, compared, rebuilt (laws 2, 3) but not"
+    " unfolded (the attribute must be callable)",
 ]
 CHUNK = 1
 
@@ -108,8 +126,11 @@ def cases(tier, seed):
 
 # ------------------------------------------------------------------------- maps
 def unique_leaves(desc):
+    """Distinct symbols of a shape with the depth of nesting below the top-level instance."""
     seen, out = {}, []
+    top = 1 if desc[0] == "inst" else 0
     for kind, name, ass, depth in R.leaves(desc):
+        depth -= top
         key = (kind, name, ass)
         if key in seen:
             out[seen[key]][3] = max(out[seen[key]][3], depth)
@@ -159,15 +180,16 @@ def enumerate_maps(desc, tier: str, is_base: bool = False) -> list:
 
     Single maps: every symbol x every target.  Pair maps: on the base shape of a class
     every pair of symbols (quick: neighbouring pairs) x target combinations + swap; on the
-    other shapes the pairs that involve a symbol inside a nested argument (quick: the first
-    such pair).  Shapes with a *symbolic* angular momentum (slow symbolic sums): quick only
-    the maps of that symbol, thorough single maps only."""
+    other shapes the pairs (symbol inside a nested argument, neighbouring symbol) (quick: the
+    first such pair; thorough: the first six).  Shapes with a *symbolic* angular momentum: only the maps of that symbol
+    (the symbolic-L form of the Blatt-Weisskopf factor is defined for z >= 0 only, see
+    TR-029, and its symbolic sums are slow)."""
     lv = unique_leaves(desc)
     tg = [targets(leaf, k) for k, leaf in enumerate(lv)]
     symbolic_l = any(_category(leaf) == "int" for leaf in lv)
     out = []
     for k, leaf in enumerate(lv):
-        if symbolic_l and tier != "thorough" and _category(leaf) != "int":
+        if symbolic_l and _category(leaf) != "int":
             continue
         for tk, t in tg[k].items():
             out.append((f"{leaf[1]}->{tk}", [[_leaf_desc(leaf), t]], leaf[3] > 0))
@@ -176,7 +198,7 @@ def enumerate_maps(desc, tier: str, is_base: bool = False) -> list:
         return out
     thorough = tier == "thorough"
     if is_base:
-        pairs = list(itertools.combinations(range(n), 2)) if thorough else [(k, k + 1) for k in range(n - 1)]
+        pairs = list(itertools.combinations(range(min(n, 8)), 2)) if thorough else [(k, k + 1) for k in range(n - 1)]
         if not thorough and n > 2:
             pairs.append((0, n - 1))
         combos_wanted = None if thorough else (("sym", "sym"), ("num", "cmp"), ("cmp", "num"), ("cmp", "sym"))
@@ -186,11 +208,12 @@ def enumerate_maps(desc, tier: str, is_base: bool = False) -> list:
         nested = [k for k, leaf in enumerate(lv) if leaf[3] > 0]
         pairs = []
         for k in nested:
-            for j in range(n):
-                if j != k and (min(j, k), max(j, k)) not in pairs:
+            for j in (k - 1, k + 1):
+                if 0 <= j < n and (min(j, k), max(j, k)) not in pairs:
                     pairs.append((min(j, k), max(j, k)))
-        if not thorough:
-            pairs = pairs[:1]
+        if not pairs:  # no nested argument: the first neighbouring pair(s)
+            pairs = [(k, k + 1) for k in range(min(n - 1, 2))]
+        pairs = pairs[:6] if thorough else pairs[:1]
         combos_wanted = (("sym", "sym"), ("num", "cmp"), ("cmp", "num"))
         n_combos = 3 if thorough else 1
         swap = True
@@ -210,15 +233,7 @@ def enumerate_maps(desc, tier: str, is_base: bool = False) -> list:
     return out
 
 
-def undummy(expr):
-    """Rename Dummy symbols canonically (two unfoldings create different Dummies)."""
-    import sympy as sp  # noqa: PLC0415
-
-    seen = {}
-    for node in sp.preorder_traversal(expr):
-        if isinstance(node, sp.Dummy) and node not in seen:
-            seen[node] = sp.Symbol(f"_dummy{len(seen)}", **node.assumptions0)
-    return expr.xreplace(seen) if seen else expr
+undummy = R.undummy
 
 
 def apply_map(expr, rule: dict, method: str):
@@ -239,6 +254,7 @@ class Recorder:
         self.counters = {}
         self.n_eval = 0
         self.sample = None
+        self.sum_in_implementation = False
 
     def out(self, key: str, n: int = 1) -> None:
         self.outcomes[key] = self.outcomes.get(key, 0) + n
@@ -250,6 +266,8 @@ class Recorder:
         tags = [f"law:{law}", f"class:{self.cls_name}", *extra]
         if known:
             tags.append(KNOWN_TAG)
+        if law == "4" and self.sum_in_implementation:
+            tags.append(SUM_TAG)
         self.viol.append({
             "msg": f"law {law}: {msg} [{R.describe(desc)}]",
             "tags": tags,
@@ -290,18 +308,71 @@ def only_symbol_leaves(desc) -> bool:
     return True
 
 
+def fully_printable(expr) -> bool:
+    """Every node of a registry class inside the folded form has its own NumPy printer
+    (a printable class around an argument that must be unfolded first is not printable)."""
+    import sympy as sp  # noqa: PLC0415
+
+    infos = R.infos()
+    for node in sp.preorder_traversal(expr):
+        i = infos.get(R.qualname(type(node)))
+        if i is not None and not i.printable and (i.unevaluated or i.name in {"PoolSum"}):
+            return False
+    return True
+
+
+def has_limits(expr) -> bool:
+    import sympy as sp  # noqa: PLC0415
+    from sympy.concrete.expr_with_limits import ExprWithLimits  # noqa: PLC0415
+
+    return any(isinstance(n, ExprWithLimits) for n in sp.preorder_traversal(expr))
+
+
+def _all_close(arrays: list):
+    """equal / differ / undefined over the entries that are finite in every array."""
+    import numpy as np  # noqa: PLC0415
+
+    try:
+        bc = np.broadcast_arrays(*[np.asarray(a, dtype=complex) for a in arrays])
+    except ValueError:
+        return "differ"
+    finite = np.ones(bc[0].shape, dtype=bool)
+    for a in bc:
+        finite &= np.isfinite(a)
+    for a in bc:
+        if np.any(np.isfinite(a) != finite) and np.any(np.isfinite(bc[0]) != np.isfinite(a)):
+            return "differ"
+    if not np.any(finite):
+        return "undefined"
+    for a in bc[1:]:
+        if R.arrays_close(a[finite], bc[0][finite])[0] != "equal":
+            return "differ"
+    return "equal"
+
+
 def check_law4(rec: Recorder, e, ed, info, desc, seed: int, known: bool) -> None:
     import numpy as np  # noqa: PLC0415
 
     strict = only_symbol_leaves(desc)
-    vals = {}
     forms = {"unfolded": ed}
-    if info.printable:
+    if info.printable and fully_printable(e):
         forms["folded"] = e
-    for form, expr in forms.items():
-        for cse in (False, True):
-            vals[form, cse] = R.np_values([expr], seed, cse=cse)
-            rec.n_eval += 1
+    elif info.printable:
+        rec.out("law4:folded-form-needs-unfolding-of-an-argument")
+    limits = has_limits(ed) or has_limits(e)
+    modes = (False,) if limits else (False, True)
+    if limits:
+        rec.out("law4:cse-skipped(bound-variables)")
+
+    def evaluate(real_input: bool) -> dict:
+        out = {}
+        for form, expr in forms.items():
+            for cse in modes:
+                out[form, cse] = R.np_values([expr], seed, cse=cse, real_input=real_input)
+                rec.n_eval += 1
+        return out
+
+    vals = evaluate(False)
     errors = {k: v[1] for k, v in vals.items() if v[0] != "ok"}
     if errors:
         if len(errors) < len(vals):
@@ -316,20 +387,28 @@ def check_law4(rec: Recorder, e, ed, info, desc, seed: int, known: bool) -> None
             return
         rec.out("law4:not-evaluable-on-arrays")
         return
-    ref_key = ("unfolded", False)
-    ref = vals[ref_key][1][0]
-    for k, v in vals.items():
-        if k == ref_key:
-            continue
-        verdict, _ = R.arrays_close(v[1][0], ref)
-        if verdict == "differ":
-            rec.bad("4", f"lambdify({k[0]}, cse={k[1]}) = {_short(v[1][0])} != lambdify(unfolded, cse=False) = {_short(ref)}",
-                    desc, known, [f"form:{k[0]}", f"cse:{k[1]}"])
+    keys = list(vals)
+    verdict = _all_close([vals[k][1][0] for k in keys])
+    label = "folded=unfolded" if "folded" in forms else "unfolded,cse-on=off"
+    if verdict == "differ":
+        # complex-valued input with signed zeros can sit on either side of a branch cut;
+        # real-valued input decides
+        real = evaluate(True)
+        if all(v[0] == "ok" for v in real.values()):
+            verdict_real = _all_close([real[k][1][0] for k in keys])
+        else:
+            verdict_real = "differ"
+        if verdict_real == "differ":
+            shown = {f"{k[0]},cse={k[1]}": _short(vals[k][1][0], 90) for k in keys}
+            rec.bad("4", f"generated code disagrees between forms / cse modes: {shown}", desc, known, ["values"])
             return
-        if verdict == "undefined":
-            rec.out("law4:all-nan")
-            return
-    rec.out("law4:folded=unfolded" if info.printable else "law4:cse-on=off")
+        rec.out(f"law4:{label}:on-real-input-only(branch-cut)")
+    elif verdict == "undefined":
+        rec.out("law4:all-nan")
+        return
+    else:
+        rec.out(f"law4:{label}")
+    ref = vals["unfolded", False][1][0]
     # reference that does not go through the NumPy printer
     ex = R.exact_values(ed, seed, n_points=R.N_EVENTS)
     rec.n_eval += 1
@@ -338,23 +417,21 @@ def check_law4(rec: Recorder, e, ed, info, desc, seed: int, known: bool) -> None
         got = np.asarray(ref, dtype=complex)
         if got.ndim == 0:
             got = np.full(want.shape, got)
-        verdict, _ = R.arrays_close(got, want)
+        verdict = _all_close([got, want])
         if verdict == "differ":
-            # signed zeros put complex-valued NumPy input on the other side of a branch cut:
-            # accept if real-valued input agrees wherever it is finite
             real = R.np_values([ed], seed, real_input=True)
-            ok = False
+            verdict_real = "differ"
             if real[0] == "ok":
                 r = np.asarray(real[1][0], dtype=complex)
                 if r.ndim == 0:
                     r = np.full(want.shape, r)
                 fin = np.isfinite(r)
-                ok = bool(np.any(fin)) and R.arrays_close(r[fin], want[fin])[0] == "equal"
-            if ok:
-                rec.out("law4:reference-equal-on-real-input")
-            else:
+                verdict_real = "undefined" if not np.any(fin) else R.arrays_close(r[fin], want[fin])[0]
+            if verdict_real == "differ":
                 rec.bad("4", f"lambdify(unfolded) = {_short(got)} but exact evaluation gives {_short(want)}",
                         desc, known, ["reference:evalf"])
+            else:
+                rec.out(f"law4:reference-evalf-{verdict_real}-on-real-input(branch-cut)")
         else:
             rec.out("law4:reference-evalf-" + verdict)
     elif np.ndim(ref) >= 1 and np.shape(ref)[0] == R.N_EVENTS and R._symbols_of([ed])[1]:
@@ -369,7 +446,7 @@ def check_law4(rec: Recorder, e, ed, info, desc, seed: int, known: bool) -> None
         if rows is None:
             rec.out("law4:no-reference")
         else:
-            verdict, _ = R.arrays_close(np.array(rows), ref)
+            verdict = _all_close([np.array(rows), ref])
             if verdict == "differ":
                 rec.bad("4", f"batch evaluation {_short(ref)} != event-by-event evaluation {_short(np.array(rows))}",
                         desc, known, ["reference:event-by-event"])
@@ -395,6 +472,10 @@ def check_shape(rec: Recorder, desc, tier: str, seed: int, is_base: bool = False
         rec.out("constructor-evaluates")
         return
     known = R.has_nested_unevaluated(e, require_attr_field=True)
+    rec.sum_in_implementation = bool(
+        info.unevaluated and info.printable and not info.unfolds and info.name.startswith("_")
+        and any(getattr(a, "is_Add", False) or getattr(a.doit(), "is_Add", False) for a in e.args)
+    )
     if known:
         rec.count("shapes_with_known_predicate")
     sid = _shape_id(desc)
@@ -414,6 +495,9 @@ def check_shape(rec: Recorder, desc, tier: str, seed: int, is_base: bool = False
         rec.bad("3", f"e.func(*e.args) raised {type(exc).__name__}: {exc}", desc, False, ["exception"])
 
     # ---- unfolding
+    if info.unevaluated and any(f.sort == "attr:phsp" and desc[2].get(f.name) == ["none"] for f in info.attr_fields):
+        rec.out("callable-attribute-is-None:unfolding-not-applicable")
+        return
     try:
         ed = e.doit()
     except Exception as exc:  # noqa: BLE001
@@ -481,7 +565,9 @@ def eval_laws(case) -> dict:
     rec = Recorder(info.name)
     for k, desc in enumerate(case["shapes"]):
         check_shape(rec, desc, case["tier"], case.get("seed", 0), is_base=(case.get("first", 0) + k == 0))
-    if rec.sample is None and case["shapes"]:
+    if case.get("first", 0) != 0 and not (rec.sample or {}).get("map"):
+        rec.sample = None
+    elif rec.sample is None and case["shapes"]:
         rec.sample = {"class": info.name, "shape": R.describe(case["shapes"][0]), "shapes_in_case": len(case["shapes"])}
     return rec.result()
 
